@@ -11,14 +11,14 @@ LEVEL = "fault_enumeration"
 RULE = ("small conformant libovni programs (1-3 threads, explicit flushes, events after OHe, stream sizes biased "
         "so that multiples of the 4096-byte stdio block fall on event boundaries), in direct and OVNI_TMPDIR mode, "
         "with a generated readdir order (LD_PRELOAD shim) so that both 'metadata first' and 'data first' "
-        "relocation orders occur; one dry run under strace lists the runtime's system calls, then ONE RUN PER "
+        "relocation orders occur, and in a third of the programs every write() of the runtime split in two real system calls (kill inside a logical write); one dry run under strace lists the runtime's system calls, then ONE RUN PER "
         "CRASH POINT: SIGKILL injected at the entry of the k-th mkdir/openat/write/close/unlink/rmdir/getdents64/"
         "read of a thread, for every k.  Progress witness F_t = bytes the killed run successfully wrote to thread "
         "t's primary stream.obs (from the strace log).  Oracle on the directory handed to ovniemu: (S1) if "
         "ovniemu -l exits 0, every visible stream holds at least its F_t flushed bytes, equal to the expected "
         "prefix; (S2) a visible stream.json that says finished=1 has all F_t bytes beside it.  "
         "Non-trivial = crash point inside ovni_thread_free; distinct = (program, readdir order, syscall, k).")
-ASSUMPTIONS = ["crash points are system-call boundaries of generated programs; a kill inside one write() is not emulated here",
+ASSUMPTIONS = ["crash points are system-call boundaries of generated programs (a kill inside a logical write of the runtime is emulated by splitting it in two system calls; stdio-internal writes are not split)",
                "strace 'when=' counts per thread and per system call name (observed)"]
 
 
@@ -76,7 +76,7 @@ def programs(draw):
         ops.append(["flush"])
         threads.append(ops)
     return {"threads": threads, "tmpdir": draw(st.sampled_from([True, True, False])), "readdir": draw(st.integers(0, 1)),
-            "interleave": draw(st.integers(0, 1000))}
+            "interleave": draw(st.integers(0, 1000)), "short": draw(st.sampled_from([None, None, "half"]))}
 
 
 def to_script(case):
@@ -134,7 +134,9 @@ def run(case, ctx):
     script = "\n".join(lines) + "\n"
     nth = len(case["threads"])
     b = ctx.b("plain")
-    env = rt.shim_env(ctx.shared["shim"], readdir=case["readdir"])
+    # short: libovni's own write() calls become two real system calls, so the
+    # enumeration also kills the process in the middle of a logical write
+    env = rt.shim_env(ctx.shared["shim"], readdir=case["readdir"], short=case.get("short"))
     base = ctx.newdir()
     npoints = 0
     nontrivial = 0
@@ -201,7 +203,7 @@ def run(case, ctx):
         ctx.stats.extra["crash_points"] = ctx.stats.extra.get("crash_points", 0) + npoints
         ctx.stats.extra["crash_points_in_thread_free"] = ctx.stats.extra.get("crash_points_in_thread_free", 0) + nontrivial
         return {"nt": nontrivial > 0, "cls": ["mode:" + ("tmpdir" if case["tmpdir"] else "direct"), "threads:%d" % nth,
-                                               "readdir:%d" % case["readdir"]],
+                                               "readdir:%d" % case["readdir"]] + (["short-writes"] if case.get("short") else []),
                 "sample": {"threads": [len(x) for x in case["threads"]], "tmpdir": case["tmpdir"], "crash_points": npoints}}
     finally:
         ctx.rmdir(base)
